@@ -15,6 +15,20 @@ Case encoding (a JSON string, so that millions of cases stay small)::
                s  handle in the top layer shadowing an older handle of the
                   same name in a second ChainMap layer
                u  handle that only exists in the second (lower) layer
+
+Two-phase cases (parts ``resnapshot-after-edit*``) append one edit::
+
+    case    := style '|' entries '>>' path ';' verb [';' name]
+    path    := '' (the root) | name ('/' name)*   the map that is edited,
+                                                  reached by chained get()
+    verb    := add (new handle under ``name``) | replace (new handle over the
+               handle ``name``) | addmap (empty ResourceMap under ``name``)
+               | clear
+
+The root snapshot is taken, the edit is applied to the map itself (not
+through the root), a NEW root snapshot is taken and compared in full with the
+map as it is now.  What the first snapshot shows afterwards is not
+constrained by the statement and not looked at.
 """
 import keyword
 
@@ -44,13 +58,33 @@ RULE = ('E3: every resource tree of depth <= 3 over the names '
         '_handle_names on every node; then the full comparison again.  A '
         'case is distinct by its tree description; non-trivial = it '
         'exercised at least one named shortcut (non-identifier / keyword / '
-        'dunder name, layered handle, nested map, mutation attempt ...).')
+        'dunder name, layered handle, nested map, mutation attempt ...).  '
+        'Two-phase parts "resnapshot-after-edit*": for every tree of a '
+        'smaller family (bounds in the part parameters) x every map of the '
+        'tree (the root and each sub-map, reached by chained get()) x every '
+        'edit of the menu {add a handle under a new name (the first absent '
+        'slot-able name and the first absent name that is not slot-able), '
+        'replace each visible handle by a new one, add an empty sub-map '
+        'under the same new names, clear()} applied to that map object '
+        'itself: get_static_map() on the root, the one edit, '
+        'get_static_map() on the root again, then the full comparison of '
+        'the NEW snapshot (every path by [] / getattr / get, every absent '
+        'name) against the map as it is now.  A two-phase case is distinct '
+        'by (tree, edited map, edit).')
 
 BOUNDS = {
     # tier: (main part (per_map, total), append-style part (per_map, total))
     'quick': ((3, 4), (3, 3)),
     'thorough': ((4, 5), (3, 4)),
 }
+# two-phase family (snapshot, one edit, new snapshot): bounds of the tree
+# BEFORE the edit; None = part not run in that tier
+EDIT_BOUNDS = {
+    'quick': ((3, 3), None),
+    'thorough': ((3, 4), (3, 3)),
+}
+EDIT_SEP = '>>'
+EDIT_VERBS = ('add', 'replace', 'addmap', 'clear')
 DEPTH = 3
 
 
@@ -240,16 +274,27 @@ def describe(root):
 
 
 class Checker:
-    def __init__(self, root, snapshot, phase):
+    def __init__(self, root, snapshot, phase, level=None):
         self.root = root
         self.snap = snapshot
-        self.phase = phase      # 'fresh' | 'after_mutation_attempts'
+        # 'fresh' | 'after_mutation_attempts' | 'after_edit' (a new snapshot
+        # taken after an edit of the map; level = 'root' | 'sub': which map
+        # was edited)
+        self.phase = phase
+        self.level = level
+        # the reference description is cross-checked against the source map
+        # whenever the map is freshly built or freshly edited
+        self.verify_source = phase in ('fresh', 'after_edit')
         self.calls = 0
         self.attr_calls = 0
         self.absent_calls = 0
 
     def fail(self, clause, detail, **features):
-        if self.phase != 'fresh':
+        if self.phase == 'after_edit':
+            # a snapshot taken after an edit disagrees with the map: one
+            # signature per clause and per kind of edited map
+            features = {'phase': self.phase, 'level': self.level}
+        elif self.phase != 'fresh':
             # whatever moved, moved because of a mutation attempt: one
             # signature per clause
             features = {'phase': self.phase}
@@ -268,7 +313,7 @@ class Checker:
         identifier)."""
         m = node.real
         entries = node.entries
-        fresh = self.phase == 'fresh'
+        fresh = self.verify_source
         for name, entry in entries.items():
             is_handle = entry[0] == 'h'
             if is_handle:
@@ -441,11 +486,9 @@ def locate_build_failure(root):
     return None, None
 
 
-def run_case(case):
-    style, tree = parse(case)
-    root = build(tree, style)
+def take_snapshot(root, **phase):
     try:
-        snap = root.real.get_static_map()
+        return root.real.get_static_map()
     except Exception as exc:
         node, exc2 = locate_build_failure(root)
         if node is None:
@@ -457,7 +500,15 @@ def run_case(case):
             f'(map {"/".join(node.path) or "<root>"} with names '
             f'{list(node.entries)})',
             exc=type(exc2).__name__, dunder='dunder' in classes,
-            non_identifier='non_identifier' in classes)
+            non_identifier='non_identifier' in classes, **phase)
+
+
+def run_case(case):
+    if EDIT_SEP in case:
+        return run_edit_case(case)
+    style, tree = parse(case)
+    root = build(tree, style)
+    snap = take_snapshot(root)
     chk = Checker(root, snap, 'fresh')
     chk.compare()
     mutation_attempts(root, snap, chk)
@@ -484,12 +535,138 @@ def run_case(case):
     return {'calls': calls, 'hits': hits, 'key': case}
 
 
+# -- two-phase family: snapshot, one edit of a map of the tree, new snapshot --
+def slotable(name):
+    """Names the implementation can keep in __slots__ (the others need the
+    instance dictionary): both kinds are used as new names."""
+    return name.isidentifier() and not name.startswith('__')
+
+
+def new_names(present):
+    absent = [n for n in NAMES if n not in present]
+    picks = [next((n for n in absent if slotable(n)), None),
+             next((n for n in absent if not slotable(n)), None)]
+    return [n for n in picks if n is not None]
+
+
+def edits_of(tree, path=()):
+    """Every (path, verb, name) of the menu on this map and its sub-maps."""
+    present = [name for name, _, _ in tree]
+    where = '/'.join(path)
+    for name in new_names(present):
+        yield f'{where};add;{name}'
+    for name, kind, _ in tree:
+        if kind != 'm':
+            yield f'{where};replace;{name}'
+    for name in new_names(present):
+        yield f'{where};addmap;{name}'
+    yield f'{where};clear'
+    for name, kind, sub in tree:
+        if kind == 'm':
+            yield from edits_of(sub, path + (name,))
+
+
+def edit_family(per_map, total, style):
+    """All two-phase cases, smallest trees first."""
+    out = []
+    for case in family(per_map, total, style):
+        _, tree = parse(case)
+        out += [f'{case}{EDIT_SEP}{e}' for e in edits_of(tree)]
+    return out
+
+
+def parse_edit(text):
+    fields = text.split(';')
+    if len(fields) not in (2, 3) or fields[1] not in EDIT_VERBS or \
+            (len(fields) == 2) != (fields[1] == 'clear'):
+        raise HarnessError(f'cannot parse edit {text!r}')
+    path = tuple(fields[0].split('/')) if fields[0] else ()
+    return path, fields[1], fields[2] if len(fields) == 3 else None
+
+
+def apply_edit(root, path, verb, name):
+    """One edit on the real map (reached by chained get, edited through its
+    own reference) and on the reference description.  -> hit names."""
+    node = root
+    m = root.real
+    for step in path:
+        entry = node.entries.get(step)
+        if entry is None or entry[0] != 'm':
+            raise HarnessError(f'edit path {path!r} is not a map of the tree')
+        node = entry[1]
+        m = m.get(step)
+    if m is not node.real:
+        raise HarnessError(f'get() along {path!r} did not reach the map the '
+                           f'tree was built with (C11 territory)')
+    where = '/'.join(path + (name,)) if name is not None else '/'.join(path)
+    hits = ['edit_' + verb,
+            'snapshot_after_submap_edit' if path
+            else 'snapshot_after_root_edit']
+    if len(path) == 2:
+        hits.append('edit_of_depth3_map')
+    if verb in ('add', 'addmap'):
+        if name in node.entries:
+            raise HarnessError(f'{name!r} is not a new name in {path!r}')
+        hits.append('edit_new_slotable_name' if slotable(name)
+                    else 'edit_new_unslotable_name')
+    if verb == 'add':
+        h = THandle(where + '#added')
+        m[name] = h
+        node.entries[name] = ('h', h, 'h')
+    elif verb == 'replace':
+        old = node.entries.get(name)
+        if old is None or old[0] != 'h':
+            raise HarnessError(f'{name!r} is not a handle in {path!r}')
+        if old[2] != 'h':
+            hits.append('edit_replaces_layered_handle')
+        h = THandle(where + '#replaced')
+        m[name] = h             # lands in the top layer: visible
+        node.entries[name] = ('h', h, old[2])
+    elif verb == 'addmap':
+        sub = Node(path + (name,))
+        sub.real = desper.ResourceMap()
+        m[name] = sub.real
+        node.entries[name] = ('m', sub)
+    else:
+        if node.entries:
+            hits.append('edit_clears_non_empty_map')
+        m.clear()
+        node.entries.clear()
+    return hits
+
+
+def run_edit_case(case):
+    tree_case, _, edit = case.partition(EDIT_SEP)
+    style, tree = parse(tree_case)
+    path, verb, name = parse_edit(edit)
+    root = build(tree, style)
+    take_snapshot(root)         # the first snapshot; not looked at again
+    edit_hits = apply_edit(root, path, verb, name)
+    level = 'sub' if path else 'root'
+    snap = take_snapshot(root, phase='after_edit', level=level)
+    chk = Checker(root, snap, 'after_edit', level=level)
+    chk.compare()
+    hits = dict.fromkeys(edit_hits, 1)
+    if style == 'A':
+        hits['append_style_layer'] = 1
+    calls = 3 + chk.calls + chk.attr_calls + chk.absent_calls
+    return {'calls': calls, 'hits': hits, 'key': case}
+
+
 def parts(tier):
     (pm, tot), (apm, atot) = BOUNDS[tier]
     return {
         'trees': ('I', pm, tot),
         'trees-append-layer': ('A', apm, atot),
     }
+
+
+def edit_parts(tier):
+    main, append = EDIT_BOUNDS[tier]
+    d = {'resnapshot-after-edit': ('I',) + main}
+    if append is not None:
+        d['resnapshot-after-edit-append-layer'] = ('A',) + append
+    return d
 
 
 def run(tier, rep):
@@ -511,12 +688,25 @@ def run(tier, rep):
         'counted as "an attempt to set an attribute" (only setattr/delattr '
         'are demanded); snapshots that expose a plain writable __dict__ are '
         'counted in shortcut_hits as information',
+        'two-phase parts: only the snapshot taken AFTER the edit is '
+        'compared with the map; what an older snapshot shows once the map '
+        'has changed is not constrained by the statement and not checked; '
+        'one edit per case, applied to the edited map object itself '
+        '(obtained by chained get() from the root), never through a '
+        'composite key on the root; edits that turn a handle into a '
+        'sub-map or a sub-map into a handle, and direct manipulation of '
+        'handles.maps after the first snapshot, are outside the menu',
     ]
     rep.require_hits(non_identifier_name=1, keyword_name=1, dunder_name=1,
                      layered_handle=1, shadowed_handle=1,
                      lower_only_handle=1, mutation_attempt=1, attr_walk=1,
                      absent_name=1, nested_map=1, depth3_map=1,
-                     append_style_layer=1)
+                     append_style_layer=1,
+                     snapshot_after_submap_edit=1, snapshot_after_root_edit=1,
+                     edit_add=1, edit_replace=1, edit_addmap=1, edit_clear=1,
+                     edit_of_depth3_map=1, edit_replaces_layered_handle=1,
+                     edit_clears_non_empty_map=1, edit_new_slotable_name=1,
+                     edit_new_unslotable_name=1)
     for part, (style, per_map, total) in parts(tier).items():
         cases = family(per_map, total, style)
         kernel.enumerate_cases(
@@ -524,6 +714,17 @@ def run(tier, rep):
             params=dict(style=style, names=list(NAMES), depth=DEPTH,
                         nodes_per_map=per_map, nodes_total=total,
                         handle_kinds=list(HANDLE_KINDS)),
+            chunk=max(200, len(cases) // 400))
+    for part, (style, per_map, total) in edit_parts(tier).items():
+        cases = edit_family(per_map, total, style)
+        kernel.enumerate_cases(
+            run_edit_case, cases, rep, part,
+            params=dict(style=style, names=list(NAMES), depth=DEPTH,
+                        nodes_per_map=per_map, nodes_total=total,
+                        handle_kinds=list(HANDLE_KINDS),
+                        edit_verbs=list(EDIT_VERBS),
+                        edited_maps='the root and every sub-map',
+                        bounds_apply_to='the tree before the edit'),
             chunk=max(200, len(cases) // 400))
 
 
